@@ -24,6 +24,11 @@
 //   (with and without the sensitivity term) must equal   sum_{b in subset} y_b P_b / (P lambda + a)_b  [- subset sensitivity]   with y = the
 //   reference histogram of the prompts (explicit matrix P in double); and the data term must equal the one of the real
 //   PoissonLogLikelihoodWithLinearModelForMeanAndProjData for the data histogrammed by the real LmToProjData (prompts only).
+//   Part G is registered twice (checks/C14.json): in the `seq` build (STIR_OPENMP off) and, with `--only G`, in the `omp` build with one
+//   thread, because LM_distributable_computation accumulates its result differently in the two builds (key field build=...).
+//
+// Case strings (replay): part=H;<template>;s=<records>[;mode=f<a>-<b>|..|n<N>;store=0..3;ms=<num_segments_in_memory>;mt=<num_TOF_bins_in_memory>]
+//                        part=G;<template>;s=<records>;N=;sym=;add=;cache=;img=;fa=;fb=      records: t<dt> | p|d<ring1>.<det1>.<ring2>.<det2>.<tof>
 #include "vmc.h"
 #include "stir_small.h"
 #include "ref_listmode.h"
